@@ -324,7 +324,7 @@ func c07Specs() []*edt.Spec {
 			},
 		},
 		termSpec2("curve", "(*MontgomeryPoint).fromProjective", nil, "ptr($p)", map[string]string{"$p": "out1(Element.ToBytes(Element.Mul($pp.U, Element.Invert($pp.W)), $p))"}),
-		termSpec2("curve", "(*MontgomeryPoint).SetEdwards", nil, "ptr($p)", map[string]string{"$p": "out1(Element.ToBytes(Element.Mul(Element.Add($edwardsPoint.inner.Z, $edwardsPoint.inner.Y), Element.Invert(Element.Sub($edwardsPoint.inner.Z, $edwardsPoint.inner.Y))), $p))"}),
+		termSpec2("curve", "(*MontgomeryPoint).SetEdwards", nil, "ptr($p)", map[string]string{"$p": "out1(Element.ToBytes(Element.Mul(Element.Add($edwardsPoint.inner.Y, $edwardsPoint.inner.Z), Element.Invert(Element.Sub($edwardsPoint.inner.Z, $edwardsPoint.inner.Y))), $p))"}),
 		termSpec2("curve", "(*montgomeryProjectivePoint).identity", nil, "ptr($p)", map[string]string{"$p.U": "Element.One", "$p.W": "Element.Zero"}),
 		termSpec2("curve", "(*montgomeryProjectivePoint).conditionalSwap", nil, "", map[string]string{
 			"$p.U": "Element.ConditionalSwap($p.U, $other.U, $choice)", "$other.U": "out1(Element.ConditionalSwap($p.U, $other.U, $choice))",
